@@ -110,7 +110,7 @@ pub fn check(c: &mut Case, files: &Files, nvariants: usize) {
     // conforming re-arrangements
     let mut rng = c.rng.clone();
     for _ in 0..nvariants {
-        let plan = PackPlan { names_after_bodies: rng.bool(), reverse_bodies: rng.bool(), extra_padding: rng.bool(), shared_name_storage: rng.chance(1, 3) };
+        let plan = PackPlan { no_tail_padding: rng.chance(1, 3), names_after_bodies: rng.bool(), reverse_bodies: rng.bool(), extra_padding: rng.bool(), shared_name_storage: rng.chance(1, 3) };
         let v = pack_build(files, &plan, &mut rng);
         c.eval(1);
         // harness self-check
